@@ -30,6 +30,28 @@ Definition esc_byte (c : byte) : str :=
 
 Definition escape (s : str) : str := flat_map esc_byte s.
 
+(* the same with numeric references: decimal &#38; &#60; &#62; &#34; &#39; and hexadecimal
+   &#x26; &#x3c; &#x3e; &#x22; &#x27; *)
+Definition is_markup (c : byte) : bool := (c =? 38) || (c =? 60) || (c =? 62) || (c =? 34) || (c =? 39).
+Definition d_amp : str := Eval vm_compute in bs "&#38;".
+Definition d_lt : str := Eval vm_compute in bs "&#60;".
+Definition d_gt : str := Eval vm_compute in bs "&#62;".
+Definition d_quot : str := Eval vm_compute in bs "&#34;".
+Definition d_apos : str := Eval vm_compute in bs "&#39;".
+Definition esc_dec_byte (c : byte) : str :=
+  if c =? 38 then d_amp else if c =? 60 then d_lt else if c =? 62 then d_gt
+  else if c =? 34 then d_quot else if c =? 39 then d_apos else [c].
+Definition escape_dec (s : str) : str := flat_map esc_dec_byte s.
+Definition h_amp : str := Eval vm_compute in bs "&#x26;".
+Definition h_lt : str := Eval vm_compute in bs "&#x3c;".
+Definition h_gt : str := Eval vm_compute in bs "&#x3e;".
+Definition h_quot : str := Eval vm_compute in bs "&#x22;".
+Definition h_apos : str := Eval vm_compute in bs "&#x27;".
+Definition esc_hex_byte (c : byte) : str :=
+  if c =? 38 then h_amp else if c =? 60 then h_lt else if c =? 62 then h_gt
+  else if c =? 34 then h_quot else if c =? 39 then h_apos else [c].
+Definition escape_hex (s : str) : str := flat_map esc_hex_byte s.
+
 (*  key="escaped value"  preceded by one space *)
 Definition print_attr (kv : str * str) : str :=
   32 :: fst kv ++ 61 :: 34 :: escape (snd kv) ++ [34].
